@@ -29,10 +29,10 @@ var _ vvalue.Executor = verifSyncExec{}
 
 const verifSpawnProgram = "let g = 0;\n" +
 	"fn w(a: int, b: int) {\n  println(a - b);\n  g += 1;\n}\n" +
-	"fn main() {\n  spawn w(A, B);\n  if N > 1 { spawn w(C, D); }\n  println(\"main\", g >= 0);\n}\n"
+	"fn main() {\n  spawn w(A, B);\n  if N > 1 { spawn w(C, D); }\n  println(\"main\", g >= 0);\n  if N > 2 { spawn w(1000, 1); }\n}\n"
 
 func VerifHarness_Spawn() {
-	n := errors.VerifNdIntRange("N", 1, 2)
+	n := errors.VerifNdIntRange("N", 1, errors.VerifParam("cores", 2))
 	a, b := errors.VerifNdInt64("A"), errors.VerifNdInt64("B")
 	c, d := errors.VerifNdInt64("C"), errors.VerifNdInt64("D")
 	inputs := []verifInput{{name: "A", kind: 'i', i: a}, {name: "B", kind: 'i', i: b}, {name: "C", kind: 'i', i: c}, {name: "D", kind: 'i', i: d}, {name: "N", kind: 'i', i: int64(n)}}
@@ -52,16 +52,71 @@ func VerifHarness_Spawn() {
 	}
 	errors.VerifReached("returned")
 	errors.VerifAssert("run-completes", o.class == "ok")
-	l1 := fmt.Sprint(a-b) + "\n"
-	l2 := fmt.Sprint(c-d) + "\n"
-	lm := "main true\n"
-	ok := false
-	if n == 1 {
-		ok = errors.VerifOr(o.out == l1+lm, o.out == lm+l1)
-	} else {
-		ok = errors.VerifOr(errors.VerifOr(errors.VerifOr(o.out == l1+l2+lm, o.out == l1+lm+l2), errors.VerifOr(o.out == l2+l1+lm, o.out == l2+lm+l1)),
-			errors.VerifOr(o.out == lm+l1+l2, o.out == lm+l2+l1))
+	lines := []string{"main true\n", fmt.Sprint(a-b) + "\n"}
+	if n > 1 {
+		lines = append(lines, fmt.Sprint(c-d)+"\n")
 	}
+	if n > 2 {
+		lines = append(lines, "999\n")
+	}
+	ok := verifIsPermutationOf(o.out, "", lines, make([]bool, len(lines)))
 	errors.VerifAssert("every-print-appears-exactly-once-and-whole-with-the-spawn-arguments", ok)
+	errors.VerifAssert("wait-returned-after-all-cores-finished", errors.VerifLiveGoroutines() <= base)
+}
+
+// verifIsPermutationOf: out equals the concatenation of the lines in some order (each exactly once).
+func verifIsPermutationOf(out, prefix string, lines []string, used []bool) bool {
+	all := true
+	for _, u := range used {
+		all = all && u
+	}
+	if all {
+		return out == prefix
+	}
+	res := false
+	for i := range lines {
+		if used[i] {
+			continue
+		}
+		used[i] = true
+		res = errors.VerifOr(res, verifIsPermutationOf(out, prefix+lines[i], lines, used))
+		used[i] = false
+	}
+	return res
+}
+
+// Staggered spawns: a core that finishes at once, a core that outlives it, and a third spawn issued by main after a
+// delay (so the wait loop can collect the first core in between). The delays read/write a global, which makes every
+// iteration a scheduling point of the engine.
+const verifStaggeredProgram = "let g = 0;\nlet t = 0;\n" +
+	"fn quick() {\n  g += 1;\n}\n" +
+	"fn slow(k: int) {\n  let i = 0;\n  while i < S {\n    i += 1;\n    t += 1;\n  }\n  println(\"slow\", k);\n}\n" +
+	"fn main() {\n  spawn quick();\n  spawn slow(1);\n  let j = 0;\n  while j < M {\n    j += 1;\n    t += 1;\n  }\n  spawn slow(2);\n  println(\"main\");\n}\n"
+
+func VerifHarness_SpawnStaggered() {
+	s := errors.VerifNdIntRange("S", 1, errors.VerifParam("S", 6))
+	m := errors.VerifNdIntRange("M", 0, errors.VerifParam("M", 6))
+	errors.VerifTag("delays", fmt.Sprint("S=", s, " M=", m))
+	inputs := []verifInput{{name: "S", kind: 'i', i: int64(s)}, {name: "M", kind: 'i', i: int64(m)}}
+	an := verifAnalyze(verifStaggeredProgram, nil, inputs, true)
+	if an.hasError {
+		errors.VerifInconclusive("spawn program rejected: " + an.describe())
+	}
+	base := errors.VerifLiveGoroutines()
+	var o verifOutcome
+	panicked, msg := errors.VerifPanics(func() { o = verifRunVM(an, nil, inputs, verifLimits, newVerifCtx()) })
+	if panicked {
+		errors.VerifTag("panic", errors.VerifNorm(msg))
+	}
+	errors.VerifAssert("spawn-never-crashes-the-host", !panicked)
+	if panicked {
+		return
+	}
+	errors.VerifReached("returned")
+	errors.VerifAssert("run-completes", o.class == "ok")
+	lines := []string{"main\n", "slow 1\n", "slow 2\n"}
+	errors.VerifTag("got", errors.VerifNorm(o.out))
+	errors.VerifAssert("every-print-appears-exactly-once-and-whole-with-the-spawn-arguments", verifIsPermutationOf(o.out, "", lines, make([]bool, len(lines))))
+	errors.VerifUntag("got")
 	errors.VerifAssert("wait-returned-after-all-cores-finished", errors.VerifLiveGoroutines() <= base)
 }
